@@ -94,6 +94,34 @@ def check(inp):
                 bad("unpack", "round-trip-values-and-units", column=k)
         if back.t_ref != tref or back.poly_trend != 2 or back.n_offsets != 0:
             bad("unpack", "metadata")
+    # pack with a user-given units mapping whose order differs from the packed order: column j holds names[j] in the unit reported at position j
+    for want_units in ({"omega": u.deg, "M0": u.deg}, {"s": u.km / u.s, "P": u.hour}, {"K": u.m / u.s, "e": u.one}):
+        for nonlinear_only in (True, False):
+            packed, units = s.pack(units=dict(want_units), nonlinear_only=nonlinear_only)
+            names = list(units.keys())
+            want = ["P", "e", "omega", "M0", "s"] if nonlinear_only else s.par_names
+            if names != list(want):
+                bad("pack", "reported-units-are-in-column-order", got=names, want=list(want), units=[str(k) for k in want_units])
+                break
+            for j, k in enumerate(names):
+                if not np.allclose(packed[:, j], s[k].to_value(units[k]), rtol=1e-13, atol=0):
+                    bad("pack", "column-holds-its-parameter-in-the-unit-reported-for-it", column=k)
+                if k in want_units and units[k] != want_units[k]:
+                    bad("pack", "requested-units-honoured", column=k)
+    # call history on ONE object: after a column is replaced, times of a given phase follow the new values
+    s2 = s.copy()
+    s2.get_t0()
+    s2.get_time_with_phase(1.0 * u.rad)
+    newM0 = np.array([1.1 + 0.5 * i for i in range(n)])
+    s2["M0"] = newM0 * u.rad
+    newP = Pd * 1.5
+    s2["P"] = (newP * u.day).to(u.Unit(inp["P_unit"]))
+    for ph in (0.0, 1.0):
+        tt = np.atleast_1d(s2.get_time_with_phase(ph * u.rad).tcb.mjd)
+        M = 2 * math.pi * (tt - tref.tcb.mjd) / newP - newM0
+        if not np.allclose(M, ph, atol=1e-8):
+            bad("get_time_with_phase", "mean-anomaly-equals-phase-after-columns-were-replaced[call-history]", phase=ph, got=M)
+            break
     # indexing / copy / reductions keep units and metadata
     def meta_ok(x):
         return x.t_ref == tref and x.poly_trend == 2 and x.n_offsets == 0 and all(x[k].unit == s[k].unit for k in s.par_names)
